@@ -247,12 +247,48 @@ def check(mm, name, j):
     return "ok", out
 
 
+def invalid_but_accepted(mm, name, j):
+    """'Whenever structuring succeeds': single closed-enum edits that make the value spec-invalid; if the
+    converter nevertheless returns an object, that object must still be well-typed (annotation walk)."""
+    from . import c11
+    if name not in mm.structures:
+        return 0, []
+    conv = impl.converter()
+    cls = root_class(name)
+    n = 0
+    out = []
+    for kind, path, new in c11.edits_at(mm, j, ref(name), (), 0, 1):
+        if kind != "closed-enum-outside":
+            continue
+        j2 = c11.apply(j, path, new)
+        if mm.valid(j2, ref(name), False):
+            continue
+        n += 1
+        try:
+            o = conv.structure(j2, cls)
+        except Exception:  # noqa: BLE001
+            continue
+        errs = []
+        conf_ann(o, cls, name, errs)
+        for p, k, got in errs:
+            out.append((p, k + "-after-accepting-invalid-input", got, j2))
+    return n, out
+
+
 def judge(mm, name, j, opts):
     st, out = check(mm, name, j)
     if st == "raise":
         return 1, "raise(C01)", []
     vs = []
     seen = set()
+    n_inv, inv = invalid_but_accepted(mm, name, j)
+    for path, kind, got, j2 in inv:
+        if (path, kind) in seen:
+            continue
+        seen.add((path, kind))
+        vs.append(Violation(PROP, "mistyped", path, "%s: %s (got %s)" % (path, kind, got),
+                            {"engine": "VSE", "root": name, "input": j2, "observed": [path, kind, str(got)],
+                             "expected": "a successfully structured value conforms to its annotations"}, node=j2, extra=kind))
     for path, kind, got in out:
         key = (path, kind)
         if key in seen:
@@ -265,6 +301,30 @@ def judge(mm, name, j, opts):
     return 1, "well-typed" if not vs else "mistyped", vs
 
 
+def _site_task(args):
+    """Union-site shapes (the heterogeneous arrays and maximal alternatives of C14) judged by both walkers."""
+    idx, k = args
+    from . import c14
+    from ..vse import VSE
+    from ..mm import is_null_type
+    mm = get_mm()
+    vse = VSE(mm)
+    ok, on, path, ort, via = c14.union_sites(mm)[idx]
+    n = 0
+    vs = []
+    roots = [r for r in c14.roots_for_site(mm, ok, on, path) if root_class(r[0]) is not None and r[0] not in mm.aliases]
+    for alt in ort["items"]:
+        for slabel, v in ([("null", None)] if is_null_type(alt) else c14.shapes(mm, vse, alt, k)):
+            for rname, rt, rpath in roots:
+                j = c14.embed(mm, vse, rt, rpath, v)
+                if j is None or not mm.valid(j, rt, True):
+                    continue
+                ne, oc, out = judge(mm, rname, j, {})
+                n += ne
+                vs += out
+    return n, vs, vse.states, vse.transitions
+
+
 def run(ctx):
     mm = get_mm()
     res = Result()
@@ -274,6 +334,18 @@ def run(ctx):
     opts = {"cap_s": 900 if ctx.thorough else 120}
     a, v = explore_roots(ctx, judge, roots, kmin, kmax, opts)
     res.merge_violations(v)
+    import multiprocessing as mp
+    from . import c14
+    nsites = len(c14.union_sites(mm))
+    with mp.get_context("fork").Pool(ctx.workers) as pool:
+        parts = pool.map(_site_task, [(i, 2 if ctx.thorough else 1) for i in range(nsites)], chunksize=2)
+    site_execs = 0
+    for n_, vs_, st_, tr_ in parts:
+        site_execs += n_
+        res.merge_violations(vs_)
+        a["states"] += st_
+        a["transitions"] += tr_
+    a["evals"] += site_execs
     # static part: after the first get_converter no field annotation is still a string
     unresolved = 0
     nfields = 0
@@ -290,7 +362,9 @@ def run(ctx):
         "traces_validated_against_impl": a["evals"], "evaluations": a["evals"],
         "distinct_nontrivial": a["distinct_nt"],
         "rule": "every VSE derivation of every root is structured; the object graph is walked against the resolved attrs "
-                "annotations and, in lock-step with the input, against the metamodel (union positions: an alternative valid for the input)",
+                "annotations and, in lock-step with the input, against the metamodel (union positions: an alternative valid for the input); plus "
+                "every union site x alternative x shape of C14 (heterogeneous arrays, maximal alternatives) embedded in its owner root",
+        "union_site_executions": site_execs,
         "roots": a["roots"], "bounds": {"min_base_k": kmin, "max_base_k": kmax},
         "outcome_classes": a["outcomes"], "attrs_fields_checked_resolved": nfields,
         "capped_roots": a["capped"], "exhaustive": not a["capped"], "samples": a["samples"],
